@@ -721,22 +721,30 @@ def sendV2ClientGuards (s : ChainState) (env : Env) (src : Id) (tt : Nat) : Exce
 def commitSendV2 (s : ChainState) (src : Id) (seq : Nat) (c : CommitV2) : ChainState :=
   { s with nextSend := s.nextSend.set src (seq + 1), commitV2 := s.commitV2.set (src, seq) c }
 
+def optGet {α : Type} (o : Option α) (e : String) : Except String α :=
+  match o with
+  | some a => .ok a
+  | none => .error e
+
+def guardB (b : Bool) (e : String) : Except String Unit := if b then .ok () else .error e
+
+/-- the checks of `sendPacket`, in the order of the Go code; returns the counterparty id and the
+    allocated sequence -/
+def sendChecksV2 (s : ChainState) (env : Env) (src : Id) (tt : Nat) (payloads : List Payload) :
+    Except String (Id × Nat) :=
+  (optGet (s.cpV2.get src) eCpNotFound).bind fun cp =>
+  (v2TimeoutWindow env tt).bind fun _ =>
+  (optGet (s.nextSend.get src) e2NSendNotFound).bind fun seq =>
+  (guardB (packetValidV2 payloads seq tt) e2InvalidPacket).bind fun _ =>
+  (sendV2ClientGuards s env src tt).bind fun _ =>
+  .ok (cp.1, seq)
+
 /-- `sendPacket` -/
 def sendPacketV2 (s : ChainState) (env : Env) (src : Id) (tt : Nat) (payloads : List Payload) :
     Except String (ChainState × Nat) :=
-  match s.cpV2.get src with
-  | none => .error eCpNotFound
-  | some (cpId, _) =>
-  match v2TimeoutWindow env tt with
+  match sendChecksV2 s env src tt payloads with
   | .error e => .error e
-  | .ok _ =>
-  match s.nextSend.get src with
-  | none => .error e2NSendNotFound
-  | some seq =>
-  if !packetValidV2 payloads seq tt then .error e2InvalidPacket else
-  match sendV2ClientGuards s env src tt with
-  | .error e => .error e
-  | .ok _ => .ok (commitSendV2 s src seq ⟨cpId, tt, payloads⟩, seq)
+  | .ok (cpId, seq) => .ok (commitSendV2 s src seq ⟨cpId, tt, payloads⟩, seq)
 
 /-- callbacks of the sending / acknowledging / timing-out side: one per payload, in order, on ctx
     (they only touch the application store); the first error fails the tx; an unknown port makes
@@ -831,7 +839,7 @@ def msgRecvPacketV2 (s : ChainState) (env : Env) (p : PacketV2) (apps : List App
   | .error e => if e = ePanic then (s, .panic) else (s, .err e)
   | .ok r =>
   -- the callbacks did run in this (committed) tx; their writes persist only if all succeeded
-  let ctx := (if r.isSuccess then { ctx with app := r.app } else ctx).logAdd (.recv2 p.dst p.seq r.ran)
+  let ctx := ({ ctx with app := if r.isSuccess then r.app else ctx.app }).logAdd (.recv2 p.dst p.seq r.ran)
   if !r.isAsync then
     if ackSuccessV2 r.acks ≠ r.isSuccess then (s, .panic) else
     done s (writeAckV2 ctx p r.acks)
